@@ -77,16 +77,16 @@ def run(ctx):
     ctx.floor('chunk decoders with chunk-local input', n, 11)
     cr = ctx.anchor('asefile::parse::Chunk::read')
     if cr is not None:
-        rx = q.calls(cr, 'asefile::reader::AseReader::read_exact')
-        ctx.floor('read_exact in Chunk::read', len(rx), 1)
+        rx = q.calls(cr, 'asefile::reader::AseReader::read_exact') + q.calls(cr, 'asefile::reader::AseReader::read_vec')
+        ctx.floor('payload reads in Chunk::read', len(rx), 1)
         for c in rx:
-            buf = q.arg_terms(c)[1]
-            ok = buf[0] == 'call' and buf[1].endswith('from_elem')
-            if ok:
-                ln = buf[2][1]
-                ok = ln[0] == 'bin' and ln[1] == 'Sub' and common.is_read(strip_casts(ln[2]), ('dword',)) and q.const_val(ln[3]) == 6 \
-                    and bindings.get(strip_casts(ln[2])[3], ('', ''))[1] == 'chunk_size'
-            ctx.inst('N2', 'Chunk::read', ok, 'chunk buffer = %s; must be exactly chunk_size - 6 bytes filled by read_exact' % show(buf)[:120], c.span,
+            at = q.arg_terms(c)
+            ln = at[1]
+            if ln[0] == 'call' and ln[1].endswith('from_elem'):
+                ln = ln[2][1]
+            ok = ln[0] == 'bin' and ln[1] == 'Sub' and common.is_read(strip_casts(ln[2]), ('dword',)) and q.const_val(ln[3]) == 6 \
+                and bindings.get(strip_casts(ln[2])[3], ('', ''))[1] == 'chunk_size'
+            ctx.inst('N2', 'Chunk::read', ok, 'chunk payload length = %s; must be exactly chunk_size - 6 bytes' % show(ln)[:120], c.span,
                      key=cr.name + '|N2|buffer')
 
     # ---------- N3 ignorable chunk kinds
